@@ -694,6 +694,9 @@ func buildAllPkgs(ctx *context, pkgs []*aPackage, verbose bool) ([]*aPackage, er
 				if err := buildPkg(ctx, aPkg, verbose); err != nil {
 					return err
 				}
+				// the init of a Python binding package imports its module: the interpreter must be running
+				aPkg.NeedPyInit = aPkg.LPkg.NeedPyInit
+				needPyInit = needPyInit || aPkg.NeedPyInit
 				if !aPkg.CacheHit {
 					if err := normalizeToArchive(ctx, aPkg, verbose); err != nil {
 						return err
